@@ -656,7 +656,63 @@ func (e *Exec) getMarkers(reader int) {
 		}
 		rec.o[w] = o
 		md.snaps = append(md.snaps, rec)
+		if e.opts.MergeOp && !e.flag("failingMerge") && md.closeInv == 0 {
+			e.getAcc(reader, w)
+		}
 	}
+}
+
+// getAcc: a direct Collection.Get of writer w's accumulator key (Merge
+// operations folded at read time across top/mid/base/lower level, while merger
+// and persister move them) must return the fold after some prefix of w's
+// batches that the real-time order allows.
+//
+//go:norace
+func (e *Exec) getAcc(reader, w int) {
+	md := e.md
+	key := writerPrefix(w) + "acc"
+	inv := simrt.Steps()
+	e.callBegin(reader, "Get")
+	v, err := e.coll.Get([]byte(key), moss.ReadOptions{})
+	e.callEnd(reader)
+	ret := simrt.Steps()
+	if err != nil || md.closeInv > 0 {
+		return
+	}
+	lo, hi := 0, 0
+	for _, c := range md.wcalls[w] {
+		if c.err != nil {
+			continue
+		}
+		if c.ret > 0 && c.ret < inv && c.idx > lo {
+			lo = c.idx
+		}
+		if c.inv < ret && c.idx > hi {
+			hi = c.idx
+		}
+	}
+	e.out.Checks++
+	h := md.whist[w]
+	var seen []string
+	for o := lo; o <= hi && o <= h.N(); o++ {
+		want, ok := h.Models[o].KV[key]
+		if (!ok && v == nil) || (ok && v != nil && string(want) == string(v)) {
+			e.probe("concurrent-merge-fold-read")
+			return
+		}
+		if ok {
+			seen = append(seen, fmt.Sprintf("%d:%q", o, string(want)))
+		} else {
+			seen = append(seen, fmt.Sprintf("%d:absent", o))
+		}
+	}
+	got := "absent"
+	if v != nil {
+		got = fmt.Sprintf("%q", string(v))
+	}
+	e.failD("visibility", map[string]string{"symptom": "merge-fold"},
+		"Collection.Get(%q) (reader %d, steps %d..%d) returns %s, which is the fold after none of the prefixes %d..%d of writer %d that the real-time order allows (%s)",
+		key, reader, inv, ret, got, lo, hi, w, strings.Join(seen, ", "))
 }
 
 //go:norace
